@@ -72,5 +72,14 @@ Definition parse_op (op : string) : list label :=
     map (fun l => LBody c h l) lens
   else [].
 
+(* "MULTI op | op | op": several requests sent back to back (pipelined) before the broker is left to settle *)
+Definition parse_line (line : string) : list label :=
+  match fields line with
+  | k :: _ => if String.eqb k "MULTI"
+              then flat_map parse_op (split_on "|"%char (String.substring 6 (String.length line - 6) line) "")
+              else parse_op line
+  | [] => []
+  end.
+
 Definition run_text_session (cfg : config) (fx : fixes) (ops : list string) : list (list string * list string) :=
-  run_session cfg fx (init cfg) (map parse_op ops).
+  run_session cfg fx (init cfg) (map parse_line ops).
